@@ -159,6 +159,9 @@ func init() {
 		for _, f := range semanticFamilies {
 			c.Scenarios = append(c.Scenarios, f.scenario(c04Oracle))
 		}
+		for _, rt := range c12ProgRoutes {
+			c.Scenarios = append(c.Scenarios, c04CastScenario(rt))
+		}
 		c.Scenarios = append(c.Scenarios, freeScenario(func(text string, tags []string, a Analyzed, r *Result) {
 			if hasTag(tags, "closure-capture") {
 				r.Note("skipped(closure-capture known finding)", 1)
